@@ -247,20 +247,35 @@ func (cs *checkState) run() int {
 			budget = 5 * time.Minute
 		}
 		deadline := time.Now().Add(budget)
+		// a record that does not reproduce (the race detector's history is bounded: the same pair of accesses is not
+		// reported in every execution of the same run) does not decide its class: up to three records of a class are
+		// tried before the class is given up as trouble of the machinery
+		tried := map[string]int{}
+		var failed = map[string]string{}
 		for _, v := range fresh {
-			if seen[v.Class] || len(seen) >= 4 {
+			if seen[v.Class] || len(seen) >= 4 || tried[v.Class] >= 3 {
+				continue
+			}
+			tried[v.Class]++
+			path, ok, why := cs.confirmAndWrite(v, deadline)
+			if !ok {
+				failed[v.Class] = fmt.Sprintf("a %q event in run %d (seed %d, %s) was observed but could not be reproduced: %s", v.Class, v.Run, v.Seed, v.Flavour, why)
 				continue
 			}
 			seen[v.Class] = true
-			path, ok, why := cs.confirmAndWrite(v, deadline)
-			if !ok {
-				troubles = append(troubles, fmt.Sprintf("a %q event in run %d (seed %d, %s) was observed but could not be reproduced: %s", v.Class, v.Run, v.Seed, v.Flavour, why))
-				continue
-			}
+			delete(failed, v.Class)
 			fmt.Printf("VIOLATION property=%s replay=%s\n", cs.prop, path)
 			fmt.Printf("  class: %s\n  %s\n", v.Class, indent(firstLines(v.Message, 12)))
 			reported = append(reported, path)
 			exit = 1
+		}
+		var classes []string
+		for c := range failed {
+			classes = append(classes, c)
+		}
+		sort.Strings(classes)
+		for _, c := range classes {
+			troubles = append(troubles, failed[c])
 		}
 	}
 	if agg.stalls > 0 {
